@@ -632,3 +632,42 @@ clone_stream!(misc_clone_ctr32le, P4w2, 4, ctr::Ctr32LE<P4w2>);
 clone_stream!(misc_clone_ctr64be, P8w3, 8, ctr::Ctr64BE<P8w3>);
 #[cfg(not(kani))]
 clone_stream!(misc_clone_ctr128le, P16w2, 16, ctr::Ctr128LE<P16w2>);
+
+// ---------------------------------------------------------------- C06: BelT-CTR keystream from the definition, with the initial
+// counter s0 = le128(E(IV)) placed at limb / wrap boundaries (IV = D(le128(s0)) with the invertible toy cipher):
+// block i (1-based) is E(le128((s0 + i) mod 2^128)); through the parallel entry point and block at a time
+#[cfg(not(kani))]
+macro_rules! beltdef {
+    ($h:ident, $cipher:ident) => {
+        pub fn $h() {
+            let c = $cipher { k: fill() };
+            let d = (nd::any::<u8>() % 9) as u128;
+            let s0: u128 = match nd::any::<u8>() % 7 {
+                0 => (1u128 << 64) - d, 1 => u128::MAX - d, 2 => (1u128 << 32) - d, 3 => ((nd::any::<u64>() as u128) << 64) | (u64::MAX as u128 - d),
+                4 => d, 5 => (1u128 << 96) - d, _ => nd::any::<u128>(),
+            };
+            let iv = c.d(s0.to_le_bytes());
+            let n = (nd::any::<u8>() % 9) as usize;
+            let skip = (nd::any::<u8>() % 4) as usize;
+            let mut core = belt_ctr::BeltCtrCore::<$cipher>::inner_iv_init(c.clone(), &iv.into());
+            let mut one: Array<u8, U16> = Default::default();
+            let mut k = 0;
+            while k < skip { core.write_keystream_block(&mut one); assert!(one == Array::<u8, U16>::from(c.e(s0.wrapping_add(k as u128 + 1).to_le_bytes())), "BelT-CTR single block differs from E(le128(s0 + i))"); k += 1; }
+            let mut xs: [Array<u8, U16>; 8] = Default::default();
+            core.process_with_backend(KsParEntry { out: &mut xs[..n.min(8)] });
+            let mut i = 0;
+            while i < n.min(8) {
+                let want = c.e(s0.wrapping_add((skip + i) as u128 + 1).to_le_bytes());
+                assert!(xs[i] == Array::<u8, U16>::from(want), "BelT-CTR keystream block differs from E(le128(s0 + i))");
+                i += 1;
+            }
+            assert!(core.get_block_pos() == (skip + n.min(8)) as u128, "BelT-CTR block position differs from the number of blocks produced");
+        }
+    };
+}
+#[cfg(not(kani))]
+beltdef!(misc_beltdef_w1, P16w1);
+#[cfg(not(kani))]
+beltdef!(misc_beltdef_w2, P16w2);
+#[cfg(not(kani))]
+beltdef!(misc_beltdef_w3, P16w3);
